@@ -118,7 +118,9 @@ class Check:
                 "fmt": rng.choice([None, None, "json", "csv", "html", "lines", "tabs"]),
                 # select-list shapes: a column that reaches the entry only through a later function argument, with or without `path` next to it
                 "xcol": rng.choice([None, None, None, "concat_ws('-', name, size)", "upper(name)", "concat('n=', name)", "length(name)", "concat_ws('/', 'p', ext, name)"]),
-                "nopath": rng.random() < 0.5}
+                "nopath": rng.random() < 0.5,
+                # clause order: FROM in its usual place, or closing the query
+                "from_last": rng.random() < 0.15}
 
     def sample_view(self, case):
         c = dict(case)
@@ -155,7 +157,7 @@ class Check:
             c = copy.deepcopy(case)
             del c["faults"][i]
             yield c
-        for k in ("xcol", "fmt"):
+        for k in ("xcol", "fmt", "from_last"):
             if case.get(k):
                 c = copy.deepcopy(case)
                 c[k] = None
@@ -184,6 +186,14 @@ class Check:
             sel = ([case["xcol"]] if case.get("nopath") and not keys and not faults else sel + [case["xcol"]])
         orderc = (" order by " + ", ".join(k["key"] + (" desc" if k["desc"] else "") for k in keys)) if keys else ""
         base = "select " + ", ".join(sel) + fromc + wherec + orderc
+        from_last = bool(case.get("from_last"))
+
+        def build(N=None, fmt="list"):
+            """The query text; the relaxed grammar also takes FROM as the closing clause (after LIMIT and INTO)."""
+            lim = (" limit %d" % N) if N is not None else ""
+            if from_last:
+                return "select " + ", ".join(sel) + wherec + orderc + lim + " into " + fmt + fromc
+            return base + lim + " into " + fmt
         shape = ("ordered" if keys else "streamed") + ("+archives" if any(r.get("arc") for r in case["roots"]) else "") + ("+lstat_fails" if faults else "")
         if faults:
             case = dict(case, plans=copy.deepcopy(case["plans"]))
@@ -191,7 +201,7 @@ class Check:
                 plan["fail"] = list(plan.get("fail", [])) + [dict(f) for f in faults]
         with ctx.sandbox(world) as sb:
             gen.validate_model(world, sb.root)
-            r0 = sb.run([base + " into list"], plan=case["plans"][0], tz=case["tz"])
+            r0 = sb.run([build()], plan=case["plans"][0], tz=case["tz"])
             if r0.sim or r0.status not in (0, 1) or r0.signal is not None:
                 viols.append(Violation(PROP, "C06.run", ["C06.run", "abnormal_end", shape], {"query": base, "outcome": r0.summary()}))
                 return viols
@@ -208,14 +218,14 @@ class Check:
             keyseq0 = [row[1:1 + len(keys)] for row in rows0]
             if keys and sorted_violation(keyseq0, keys):
                 ctx.metric("unlimited_not_sorted")  # C05's business; the relational comparison below still applies
-            ns = list(range(0, M + 3))
+            ns = list(range(0, M + 3)) + [2 ** 31 - 1, 2 ** 31, 2 ** 32 - 1]  # the largest limits the query language accepts
             if case.get("only_n") is not None:
                 ns = [case["only_n"]]
             ctx.metric("campaigns")
             ctx.metric("N_values", len(ns))
             for ei, plan in enumerate(case["plans"]):
                 for N in ns:
-                    q = base + " limit %d into list" % N
+                    q = build(N)
                     r = sb.run([q], plan=plan, tz=case["tz"])
                     if r.sim or r.status not in (0, 1) or r.signal is not None:
                         viols.append(Violation(PROP, "C06.run", ["C06.run", "abnormal_end", shape], {"query": q, "outcome": r.summary()}))
@@ -244,7 +254,7 @@ class Check:
                 for N in sorted({1, 2, max(1, M - 1), M, M + 1}):
                     if N < 1:
                         continue
-                    q = base + " limit %d into %s" % (N, fmt)
+                    q = build(N, fmt)
                     r = sb.run([q], plan=case["plans"][0], tz=case["tz"])
                     if r.sim or r.status not in (0, 1) or r.signal is not None:
                         viols.append(Violation(PROP, "C06.run", ["C06.run", "abnormal_end", shape], {"query": q, "outcome": r.summary()}))
